@@ -10,7 +10,6 @@ import (
 	"crypto/sha512"
 	"hash"
 	"math/big"
-	"strings"
 
 	"github.com/miekg/dns"
 	"github.com/semihalev/sdns/internal/dnsutil"
@@ -34,7 +33,7 @@ func signatureBinding(k *dns.DNSKEY, sig *dns.RRSIG, rrset []dns.RR) error {
 		sig.Hdr.Class != k.Hdr.Class {
 		return ErrMissingDNSKEY
 	}
-	if !strings.EqualFold(sig.SignerName, k.Hdr.Name) {
+	if !equalNameASCIIFold(sig.SignerName, k.Hdr.Name) {
 		return ErrMissingDNSKEY
 	}
 
@@ -42,7 +41,7 @@ func signatureBinding(k *dns.DNSKEY, sig *dns.RRSIG, rrset []dns.RR) error {
 	h0 := rrset[0].Header()
 	if h0.Class != sig.Hdr.Class || h0.Rrtype != sig.TypeCovered ||
 		dns.CountLabel(h0.Name) < int(sig.Labels) ||
-		!strings.EqualFold(h0.Name, sig.Hdr.Name) ||
+		!equalNameASCIIFold(h0.Name, sig.Hdr.Name) ||
 		// On a label boundary, not a string suffix. RFC 4035 §5.3.1 requires
 		// the signer to name the zone containing the RRset, and a plain
 		// suffix test reads evilexample.com. as inside example.com. The
@@ -249,4 +248,28 @@ func rsaCryptoHash(algorithm uint8) (crypto.Hash, bool) {
 		return crypto.SHA512, true
 	}
 	return 0, false
+}
+
+// equalNameASCIIFold reports whether a and b are the same name text up to
+// ASCII letter case, which is all the case-insensitivity DNS has (RFC 4343).
+// strings.EqualFold also applies Unicode simple folding (U+212A KELVIN SIGN
+// equals "k"), which would bind a signature to a key owned by a different
+// name - something the reference library's octet comparison never does.
+func equalNameASCIIFold(a, b string) bool {
+	if len(a) != len(b) {
+		return false
+	}
+	for i := 0; i < len(a); i++ {
+		ca, cb := a[i], b[i]
+		if ca >= 'A' && ca <= 'Z' {
+			ca += 'a' - 'A'
+		}
+		if cb >= 'A' && cb <= 'Z' {
+			cb += 'a' - 'A'
+		}
+		if ca != cb {
+			return false
+		}
+	}
+	return true
 }
